@@ -56,6 +56,7 @@ type c01Rule struct {
 	style     int // how must is written: 0 none, 1 "must_" prefix, 2 "(must)" param
 }
 type c01Prog struct {
+	ipPool [][]c01Val // address sets already used by a dip/sip condition of this program
 	exotic  bool // carries a literal outside the property's alphabet (l4proto icmp, ipversion 5, inverted port range, dscp > 63)
 	aimFrom int  // > 0: packets are mostly aimed at rules[aimFrom:] (large programs: the late rules)
 	rules             []c01Rule
@@ -108,6 +109,18 @@ func c01GenCond(r *VRand, stats *VStats, p *c01Prog) c01Cond {
 	g := c01Group{}
 	switch fn {
 	case "dip", "sip":
+		if len(p.ipPool) > 0 && r.Chance(0.3) {
+			// The same address set again, under the same or the OTHER direction: the builder shares one
+			// LPM slot between identical canonical sets whatever the match type, while the lookups use
+			// the destination for dip and the source for sip.
+			g.vals = append([]c01Val(nil), p.ipPool[r.Intn(len(p.ipPool))]...)
+			if r.Bool() && len(g.vals) > 1 {
+				g.vals[0], g.vals[len(g.vals)-1] = g.vals[len(g.vals)-1], g.vals[0] // same set, other order
+			}
+			stats.Inc("cond.ip_set_reused")
+			break
+		}
+		defer func() { p.ipPool = append(p.ipPool, append([]c01Val(nil), c.groups[0].vals...)) }()
 		for i := 0; i < nv; i++ {
 			pf := c12RandPrefix(r, NewVStats())
 			if r.Chance(0.5) { // small clustered v4 space so that packets hit
